@@ -74,7 +74,7 @@ theorem deserGraph_links :
     have iv_mem : ∀ v ∈ (deserInits (deserInputs st inputs).1 (inputTable inputs (deserInputs st inputs).2)
         (vinfoTable vinfo) inits).2.2, ∃ x, (x, v) ∈ tbl4 := by
       intro v hv
-      obtain ⟨x, hx⟩ := miv v hv
+      obtain ⟨x, _, hx⟩ := miv v hv
       exact ⟨x, s4.mem _ (s3.mem _ hx)⟩
     have hun : ∀ v, v ∈ (deserInputs st inputs).2 ∨ v ∈ (deserOutputs st4 tbl4 outputs).2 ∨
         v ∈ (deserInits (deserInputs st inputs).1 (inputTable inputs (deserInputs st inputs).2)
@@ -115,7 +115,8 @@ theorem deserGraph_links :
           obtain ⟨x, hx⟩ := inputTable_vals inputs st.nv v hv
           rw [← hins] at hx
           exact ⟨x, s2.mem _ hx⟩
-        · exact miv v hv
+        · obtain ⟨x, _, hx⟩ := miv v hv
+          exact ⟨x, hx⟩
       obtain ⟨x, hx⟩ := h2
       have hnd : x ∉ outNames nodes := fun hm => lookup_ne_none_of_mem _ _ _ hx (m3 x hm).1
       have := roots4 (x, v) (s4.mem _ (s3.mem _ hx)) hnd
